@@ -79,12 +79,13 @@ type link struct {
 	peer      io.ReadWriter // the peer's end of the byte stream of the current Open
 	killPeer  func()        // the peer goes away abruptly
 	sessCh    chan *sshsim.Session
-	alive     bool           // what IsAlive() said right before the last Close
-	srv       *sshsim.Server // the ssh kinds: the in-process server
-	closeDone chan struct{}  // closed when the last closeTransport's Close call returned
-	freeze    func()         // the peer hangs: connection up, nothing processed any more
-	leave     func()         // the peer ends the session in an orderly way (everything it wrote before is on its way)
-	peerClose func()         // harness-side release of the current peer connection
+	alive     bool              // what IsAlive() said right before the last Close
+	srv       *sshsim.Server    // the ssh kinds: the in-process server
+	closeDone chan struct{}     // closed when the last closeTransport's Close call returned
+	halfClose func(status bool) // ssh kinds: CHANNEL_EOF (after exit-status if status) without CHANNEL_CLOSE
+	freeze    func()            // the peer hangs: connection up, nothing processed any more
+	leave     func()            // the peer ends the session in an orderly way (everything it wrote before is on its way)
+	peerClose func()            // harness-side release of the current peer connection
 	cleanup   []func()
 	pid       int    // child of the system transport (current Open)
 	pre       []byte // bytes the client already read during setup (after the readiness marker)
@@ -239,7 +240,15 @@ func newLinkOpt(kind string, readSize int, early *earlyPlan, base *link, sockTO 
 				l.peer = s
 				l.killPeer = s.Kill
 				l.leave = func() { s.CloseWrite(); s.Close() } // orderly end of the session channel
-				l.freeze = s.Freeze                            // the server stops processing the connection
+				// legal half close: the device ends ITS direction (optionally after an exit status) but sends
+				// no channel close and keeps the connection
+				l.halfClose = func(status bool) {
+					if status {
+						s.SendRequest("exit-status", false, []byte{0, 0, 0, 0})
+					}
+					s.CloseWrite()
+				}
+				l.freeze = s.Freeze // the server stops processing the connection
 				l.peerClose = s.Kill
 			case <-time.After(30 * time.Second):
 				return fmt.Errorf("%w: Open returned but the server saw no session", errSetup)
